@@ -87,7 +87,9 @@ func (c01) Cases(tier string, seed uint64) []fw.Case {
 	r := fw.NewRng(seed ^ 0xC01)
 	var cases []fw.Case
 	for i := 0; i < n; i++ {
-		cases = append(cases, fw.MkCase(fmt.Sprintf("c01-gen-%d", i), "gen", Payload{Seed: r.Next(), Size: 6 + r.Intn(14), Preset: "main"}))
+		pl := Payload{Seed: r.Next(), Size: 6 + r.Intn(14), Preset: "main"}
+		pr, _ := Build(pl)
+		cases = append(cases, fw.MkCase(fmt.Sprintf("c01-gen-%d", i), "gen", pl, prog.Hazards(pr)...))
 	}
 	// poisoned workloads: one poisoned feature at a time, tagged so that only the matching
 	// known finding can absorb their failures
@@ -102,7 +104,9 @@ func (c01) Cases(tier string, seed uint64) []fw.Case {
 			continue // not poisoned: the feature is part of the main workload
 		}
 		for i := 0; i < np; i++ {
-			cases = append(cases, fw.MkCase(fmt.Sprintf("c01-%s-%d", ps.tag, i), "gen-poisoned", Payload{Seed: r.Next(), Size: 6 + r.Intn(10), Preset: ps.preset}, ps.tag))
+			pl := Payload{Seed: r.Next(), Size: 6 + r.Intn(10), Preset: ps.preset}
+			pr, _ := Build(pl)
+			cases = append(cases, fw.MkCase(fmt.Sprintf("c01-%s-%d", ps.tag, i), "gen-poisoned", pl, prog.Hazards(pr)...))
 		}
 	}
 	return cases
